@@ -58,6 +58,15 @@ Theorem C19_expiry_window_and_remainder : forall T N now0 ps p,
   0 <= remainder t p <= delay t /\ (r <= 0 -> remainder t p = 0).
 Proof. exact step_window. Qed.
 
+(** the reliable variant (stun_timer_start_reliable: STUN over TCP, TURN-TCP, checks on reliable sockets) never asks for a
+    retransmission, however often or late it is polled: a single transmission, then TIMEOUT for ever *)
+Theorem C19_reliable_single_transmission : forall T now0 ps,
+  1 <= T <= 10000 -> wf_now now0 -> sorted_from (us now0) ps ->
+  let rs := fst (polls (timer_start_reliable now0 T) ps) in
+  count RETRANSMIT rs = 0 /\ exists pre n, rs = pre ++ repeat TIMEOUT n /\ count TIMEOUT pre = 0 /\ count RETRANSMIT pre = 0.
+Proof. exact reliable_never_retransmits. Qed.
+Print Assumptions C19_reliable_single_transmission.
+
 (** non-vacuity: a concrete run meets the hypotheses and shows T, 2T, T for N = 3 *)
 Example C19_nonvacuous :
   let now0 := {| sec := 5; usec := 999500 |} in
